@@ -162,22 +162,28 @@ theorem vex_rmi_mem_formOk (ctx : Spec.X86.Ctx) (rule : Rule) (p : Parsed) (mb :
 
 /-- `[base + index * scale + disp]` with 64-bit base and index registers in 64-bit mode: the memory check of the monitor succeeds when the decoded
 SIB fields and the decoded displacement are the operand's -/
-theorem checkMem_index64 (c : Spec.X86.Ctx) (r : Rule) (p : Parsed) (m : MemOp) (mb s : BitVec 8)
-    (hm64 : c.mode64 = true) (hno67 : p.prefixes.contains 0x67#8 = false) (ha16 : p.addr16 = false)
+theorem checkMem_index64 (c : Spec.X86.Ctx) (r : Rule) (p : Parsed) (m : MemOp) (mb s : BitVec 8) (a32 : Bool)
+    (hm64 : c.mode64 = true) (hno67 : p.prefixes.contains 0x67#8 = a32) (ha16 : p.addr16 = false)
     (hmodrm : p.modrm = some mb) (hmod : bits mb 6 2 ≠ 3)
-    (hbk : m.baseKind = .gpq) (hik : m.indexKind = .gpq)
+    (hbk : m.baseKind = (if a32 then .gpd else .gpq)) (hik : m.indexKind = (if a32 then .gpd else .gpq))
     (hs : p.sib = some s) (hn5 : ¬ (bits mb 6 2 = 0 ∧ bits s 0 3 = 5)) (hb : regNum false p.B (bits s 0 3) = m.baseId)
     (hx : regNum false p.X (bits s 3 3) = m.indexId) (hx4 : m.indexId ≠ 4) (hsc : bits s 6 2 = m.shift)
     (hd : decodedDisp r p = sextNat (m.disp.toNat % 2 ^ 32) 32) :
     checkMem c r p m = .ok () := by
   have hmod' : (bits mb 6 2 == 3) = false := by simpa using hmod
-  have hvs : vsibOf m = .none := by simp [vsibOf, hik]
+  have hvs : vsibOf m = .none := by cases a32 <;> simp_all [vsibOf]
   unfold decodedDisp at hd
-  have hno67' : ¬ (0x67#8 ∈ p.prefixes) := by simpa using hno67
   have hn5' : (bits mb 6 2 == 0 && bits s 0 3 == 5) = false := by
     simp only [Bool.and_eq_false_iff, beq_eq_false_iff_ne]; by_cases h : bits mb 6 2 = 0 <;> simp_all
-  simp [checkMem, hmodrm, hmod', hm64, hno67, hno67', ha16, hvs, hbk, hik, hs, hn5', hb, hx, hx4, hsc, wantedAddrSize, bind, Except.bind, pure, Except.pure]
-  simpa using hd
+  cases a32
+  · have hno67' : ¬ (0x67#8 ∈ p.prefixes) := by simpa using hno67
+    simp only [Bool.false_eq_true, ↓reduceIte] at hbk hik
+    simp [checkMem, hmodrm, hmod', hm64, hno67, hno67', ha16, hvs, hbk, hik, hs, hn5', hb, hx, hx4, hsc, wantedAddrSize, bind, Except.bind, pure, Except.pure]
+    simpa using hd
+  · have hno67' : 0x67#8 ∈ p.prefixes := by simpa using hno67
+    simp only [↓reduceIte] at hbk hik
+    simp [checkMem, hmodrm, hmod', hm64, hno67, hno67', ha16, hvs, hbk, hik, hs, hn5', hb, hx, hx4, hsc, wantedAddrSize, bind, Except.bind, pure, Except.pure]
+    simpa using hd
 
 /-- `[rip + disp32]` in 64-bit mode: mod = 00, rm = 101, no SIB, no 67 prefix, the disp32 is the operand's displacement -/
 theorem checkMem_rip (c : Spec.X86.Ctx) (r : Rule) (p : Parsed) (m : MemOp) (mb : BitVec 8)
